@@ -231,4 +231,14 @@ def jobs_c09(prop, tier, seed):
             + compose_jobs(COMPS_DEEP, ["base", "dbg"], 4 * s, 60, rng, "deep") + known_jobs(["base"]))
 
 
+def extra_jobs(prop, tier, seed):
+    """compositions run by the checks of other properties: C03 (the composable interface of fallback chains never throws
+    and never grows anything), C05 (deeply tracked library allocators give every block back)"""
+    rng = random.Random(seed * 7919 + int(prop[1:]))
+    s = 1 if tier == "quick" else 20
+    if prop == "C03":
+        return compose_jobs(COMPS_FB, ["base"], 3 * s, 40, rng, "fallback")
+    return compose_jobs(COMPS_DEEP + ["fb_pool", "fb_apool", "fb_coll"], ["base"], 3 * s, 50, rng, "deep")
+
+
 PROPS = {"C08": {"jobs": jobs_c08}, "C09": {"jobs": jobs_c09}}
